@@ -98,7 +98,7 @@ def parseOp (t : List String) : Option Op :=
   | some "f_cfg" => some (.factory (n 1) (parseCoins (s 2)) (.updateConfig (optN (s 3)) (optN (s 4)) (optN (s 5))))
   | some "f_create" =>
     some (.factory (n 1) (parseCoins (s 2))
-      (.createPair (parseAsset (s 3)) (parseAsset (s 4)) { whitelist := natList (s 5), min0 := n 6, min1 := n 7 } (optN (s 8)) 0 0))
+      (.createPair (parseAsset (s 3)) (parseAsset (s 4)) { whitelist := natList (s 5), min0 := n 6, min1 := n 7 } (optN (s 8)) (if t.length > 9 then optN (s 9) else none) 0 0))
   | some "f_add" => some (.factory (n 1) (parseCoins (s 2)) (.addDecimals (n 3) (n 4)))
   | some "f_mig" => some (.factory (n 1) (parseCoins (s 2)) (.migratePair (n 3) (optN (s 4))))
   | _ => none
@@ -118,6 +118,7 @@ def modelObs (w : World) (key : String) : String :=
   match key.splitOn " " with
   | ["bal", a, who] => toString (bal w (parseAsset a) who.toNatD)
   | ["supply", t] => match w.tok t.toNatD with | some T => toString T.supply | none => "?"
+  | ["tdec", t] => match w.tok t.toNatD with | some T => toString T.decimals | none => "err"
   | ["allow", t, o, s] => match w.tok t.toNatD with
       | some T => toString ((T.allow o.toNatD s.toNatD).getD 0)
       | none => "?"
@@ -595,15 +596,32 @@ def oracles (st : WorldSt) (pd : Pending) (post : Bool := false) : List (String 
       out := out ++ fails "C14" "factory message accepted from a non-owner" (s = prevOwner)
       match m with
        | .updateConfig (some o) _ _ => out := out ++ fails "C14" "ownership did not follow the update" ((curVal st "owner").toNatD = o)
-       | .createPair a0 a1 _ _ _ _ =>
+       | .createPair a0 a1 _ _ _ _ _ =>
          out := out ++ fails "C16" "a pair with two identical assets was created" (a0 ≠ a1)
          let had := prevValFirst st s!"reg {showAsset a0} {showAsset a1}"
          let had' := prevValFirst st s!"reg {showAsset a1} {showAsset a0}"
          out := out ++ fails "C16" "a pair for an already registered asset set was created" ((had == "" || had == "none") && (had' == "" || had' == "none"))
-         for a in [a0, a1] do
+         -- decimals of a cw20 as the implementation's token reports them: the world's base tokens (from the `token`
+         -- lines) or the LP token of an observed pair (`tdec` observation)
+         let tokDec (t : Nat) : Option Nat := match st.tokDecimals.find? (·.1 = t) with
+           | some x => some x.2
+           | none => (prevValFirst st s!"tdec {t}").toNat?
+         let created : Option PairView := match pd.implRes.splitOn " " with
+           | ["ok", "created", np, _] => pairViewOf (curVal st s!"pair {np.toNatD}")
+           | _ => none
+         for (a, i) in [(a0, 0), (a1, 1)] do
+           let recorded : Option Nat := created.map fun v => if i = 0 then v.d0 else v.d1
            match a with
-           | .native d => out := out ++ fails "C16" "pair created over an unregistered denom" (prevValFirst st s!"denom {d}" ≠ "-")
-           | .token t => out := out ++ fails "C16" "pair created over an address that is not a live cw20" ((st.tokDecimals.find? (·.1 = t)).isSome)
+           | .native d =>
+             out := out ++ fails "C16" "pair created over an unregistered denom" (prevValFirst st s!"denom {d}" ≠ "-")
+             match recorded, (prevValFirst st s!"denom {d}").toNat? with
+              | some k, some k' => out := out ++ fails "C16" s!"pair records {k} decimals for denom {d}, registered with {k'}" (k = k')
+              | _, _ => pure ()
+           | .token t =>
+             out := out ++ fails "C16" "pair created over an address that is not a live cw20" ((tokDec t).isSome)
+             match recorded, tokDec t with
+              | some k, some k' => out := out ++ fails "C16" s!"pair records {k} decimals for token {t}, which reports {k'}" (k = k')
+              | _, _ => pure ()
        | .addDecimals d k =>
          out := out ++ fails "C17" "denom query does not report the new decimals" (curVal st s!"denom {d}" = toString k)
          for p in st.pairsSeen do
@@ -861,7 +879,7 @@ def worldLine (st : WorldSt) (line : String) : WorldSt × List String × String 
          | none => (st0, outs0, fam, v0)
          | some op0 =>
            let op := match op0, impl.splitOn " " with
-             | .factory s f (.createPair a0 a1 req c _ _), ["ok", "created", np, nl] => Op.factory s f (.createPair a0 a1 req c np.toNatD nl.toNatD)
+             | .factory s f (.createPair a0 a1 req c ld _ _), ["ok", "created", np, nl] => Op.factory s f (.createPair a0 a1 req c ld np.toNatD nl.toNatD)
              | o, _ => o
            let pd : Pending := { line := line, op := op, kind := opT.headD "?", implOk := impl.startsWith "ok", implRes := impl,
                                  wBefore := st0.w, modelOk := true }
@@ -877,7 +895,7 @@ def worldLine (st : WorldSt) (line : String) : WorldSt × List String × String 
          | some op0 =>
            -- the addresses a CreatePair allocates are environment inputs, taken from the implementation's result
            let op := match op0, impl.splitOn " " with
-             | .factory s f (.createPair a0 a1 req c _ _), ["ok", "created", np, nl] => Op.factory s f (.createPair a0 a1 req c np.toNatD nl.toNatD)
+             | .factory s f (.createPair a0 a1 req c ld _ _), ["ok", "created", np, nl] => Op.factory s f (.createPair a0 a1 req c ld np.toNatD nl.toNatD)
              | o, _ => o
            let name := nameOf st0
            let r := exec name st0.w op
